@@ -2185,8 +2185,11 @@ fn root_main(w: Arc<World>) {
                     match op {
                         POp::Yield => vthread::yield_now(),
                         POp::Push { n } => {
-                            for _ in 0..n {
-                                vthread::yield_now();
+                            for k in 0..n {
+                                // (a large push is a burst: all of it is there the next time the stream is polled)
+                                if n <= 8 || k == 0 {
+                                    vthread::yield_now();
+                                }
                                 next += 1;
                                 stream_event(&w2, si, Some(next), false);
                             }
